@@ -188,8 +188,11 @@ def encode_bech32_checksum(s, network="mainnet"):
 
 def decode_bech32(s):
     """Returns network, segwit version and the hash from the bech32 address"""
+    if len(s) > 90 or (s.lower() != s and s.upper() != s):
+        raise ValueError(f"bad address (too long or mixed case): {s}")
+    s = s.lower()
     regtest_prefix = PREFIX["regtest"]
-    if s.startswith(regtest_prefix):
+    if s.startswith(regtest_prefix + "1"):
         hrp, raw_data = regtest_prefix, s[5:]
     else:
         hrp, raw_data = s.split("1")
@@ -199,7 +202,11 @@ def decode_bech32(s):
         raise ValueError(f"unknown human readable part: {hrp}")
 
     data = [BECH32_ALPHABET.index(c) for c in raw_data]
+    if len(data) < 7:
+        raise ValueError(f"bad address: {s}")
     version = data[0]
+    if version > 16:
+        raise ValueError(f"bad witness version: {version}")
     verify_fnc = bech32_verify_checksum if version == 0 else bech32m_verify_checksum
     if not verify_fnc(hrp, data):
         raise ValueError(f"bad address: {s}")
@@ -208,8 +215,12 @@ def decode_bech32(s):
         number = (number << 5) + digit
     num_bytes = (len(data) - 7) * 5 // 8
     bits_to_ignore = (len(data) - 7) * 5 % 8
+    if bits_to_ignore > 4 or number & ((1 << bits_to_ignore) - 1):
+        raise ValueError(f"bad padding: {s}")
     number >>= bits_to_ignore
     hash = int_to_big_endian(number, num_bytes)
     if num_bytes < 2 or num_bytes > 40:
         raise ValueError(f"bytes out of range: {num_bytes}")
+    if version == 0 and num_bytes not in (20, 32):
+        raise ValueError(f"bad version 0 program length: {num_bytes}")
     return [network, version, hash]
